@@ -42,6 +42,29 @@ constexpr auto fmod_type_check(const T1 x, const T2 y) noexcept -> TC
     return fmod_check(static_cast<TC>(x), static_cast<TC>(y));
 }
 
+// IEEE remainder: x - n*y with n the integer nearest to x/y, ties to even
+template <typename T>
+constexpr auto remainder_finite(T const x, T const y) noexcept -> T
+{
+    bool odd   = false;
+    T const ay = abs(y);
+    T r        = fmod_reduce(abs(x), ay, odd);
+    if (r > ay - r || (r == ay - r && odd)) {
+        r -= ay;
+    }
+    return x < T(0) ? -r : r;
+}
+
+template <typename T>
+constexpr auto remainder_check(T const x, T const y) noexcept -> T
+{
+    return (
+        (any_nan(x, y) || is_inf(x) || y == T(0)) ? etl::numeric_limits<T>::quiet_NaN()
+        : (is_inf(y) || x == T(0))                ? x
+                                                  : remainder_finite(x, y)
+    );
+}
+
 } // namespace internal
 
 /**
@@ -56,6 +79,12 @@ template <typename T1, typename T2>
 constexpr auto fmod(const T1 x, const T2 y) noexcept -> common_return_t<T1, T2>
 {
     return internal::fmod_type_check(x, y);
+}
+
+template <typename T1, typename T2, typename TC = common_return_t<T1, T2>>
+constexpr auto remainder(const T1 x, const T2 y) noexcept -> TC
+{
+    return internal::remainder_check(static_cast<TC>(x), static_cast<TC>(y));
 }
 
 #endif
